@@ -14,6 +14,11 @@
 // kill campaign: a child process performs an atomic put and SIGKILLs itself after step j
 // (hook points in storageos.writeObjectCloser.Close under build tag verif); the parent
 // inspects the directory and compares with the model's prefix state.
+//
+// Part X (realclose.go) — REAL close(2) / write(2) failures of the files behind a disk bucket
+// (descriptor closed / made read-only behind the bucket's back, also from the verif hook inside
+// storageos' Close), every helper, plain and atomic, every position of multi-object copies,
+// second Close, the generated-file flush.
 package main
 
 import (
@@ -77,6 +82,38 @@ type faultyBucket struct {
 	trace    []prim              // every primitive executed
 	chunks   map[string][]string // path -> chunk contents
 	fired    []prim
+	// a helper that has returned is over: objects it opened are closed, no primitive follows
+	returned     bool
+	open         int
+	openAtReturn int
+	late         *lateLog
+}
+
+// lateLog outlives its faultyBucket: primitives recorded after the helper returned (leftover
+// jobs of a Parallelize that did not wait) are swept at the end of part A.
+type lateLog struct {
+	mu    sync.Mutex
+	prims []prim
+}
+
+func (l *lateLog) get() []prim {
+	l.mu.Lock()
+	defer l.mu.Unlock()
+	return append([]prim{}, l.prims...)
+}
+
+// markReturned is called when the helper under test has returned.
+func (b *faultyBucket) markReturned() {
+	b.mu.Lock()
+	b.returned = true
+	b.openAtReturn = b.open
+	b.mu.Unlock()
+}
+
+func (b *faultyBucket) opened(d int) {
+	b.mu.Lock()
+	b.open += d
+	b.mu.Unlock()
 }
 
 func newFaulty(delegate storage.WriteBucket, faults []prim) *faultyBucket {
@@ -84,12 +121,17 @@ func newFaulty(delegate storage.WriteBucket, faults []prim) *faultyBucket {
 	for _, f := range faults {
 		m[f] = true
 	}
-	return &faultyBucket{delegate: delegate, faults: m, chunks: map[string][]string{}}
+	return &faultyBucket{delegate: delegate, faults: m, chunks: map[string][]string{}, late: &lateLog{}}
 }
 
 func (b *faultyBucket) hit(p prim) bool {
 	b.mu.Lock()
 	defer b.mu.Unlock()
+	if b.returned {
+		b.late.mu.Lock()
+		b.late.prims = append(b.late.prims, p)
+		b.late.mu.Unlock()
+	}
 	b.trace = append(b.trace, p)
 	if b.faults[p] {
 		b.fired = append(b.fired, p)
@@ -113,6 +155,7 @@ func (b *faultyBucket) Put(ctx context.Context, path string, opts ...storage.Put
 	if err != nil {
 		return nil, err
 	}
+	b.opened(1)
 	return &faultyObject{b: b, path: path, w: w}, nil
 }
 func (b *faultyBucket) Delete(ctx context.Context, path string) error {
@@ -142,6 +185,7 @@ func (o *faultyObject) Write(p []byte) (int, error) {
 	return o.w.Write(p)
 }
 func (o *faultyObject) Close() error {
+	defer o.b.opened(-1)
 	if o.b.hit(prim{o.path, 'c', 0}) {
 		o.w.Close()
 		return o.b.err(prim{o.path, 'c', 0})
@@ -304,6 +348,7 @@ func (c opCase) runKind(faults []prim, tmp string, k *errKind) (err error, fb *f
 		if p := recover(); p != nil {
 			err = fmt.Errorf("PANIC: %v", p)
 		}
+		fb.markReturned()
 	}()
 	switch c.kind {
 	case "putpath":
@@ -512,6 +557,31 @@ func resultLine(c opCase, err error, cnt int, dest storage.ReadBucket, fb *fault
 	return res + "|" + dumpDest(dest, base) + "|fired=" + strconv.Itoa(len(fb.fired))
 }
 
+type lateEntry struct {
+	idx  int
+	in   map[string]any
+	kind string
+	par  int
+	log  *lateLog
+}
+
+var lateSweep []lateEntry
+
+// sweepLate: after part A, no run may have recorded a primitive after its helper returned.
+func sweepLate(run *hx.Run) {
+	n := 0
+	for _, e := range lateSweep {
+		if ps := e.log.get(); len(ps) > 0 {
+			n++
+			run.Fail(hx.OracleFailure{Class: "primitive-after-helper-returned", What: fmt.Sprintf("after %s (parallelism %d) had returned, its leftover jobs still issued %v on the destination", e.kind, e.par, ps), Input: e.in,
+				Replay: fmt.Sprintf("build/c15 --out /tmp/c15-replay --seed %d --tier %s --only %d", run.Seed, run.Tier, e.idx)})
+		}
+	}
+	run.CountN("A:runs-with-primitives-after-return", n)
+	run.CountN("A:runs-swept-for-late-primitives", len(lateSweep))
+	lateSweep = nil
+}
+
 func oracleA(run *hx.Run, idx int, c opCase, faults []prim, err error, fb *faultyBucket, dest storage.ReadBucket, cnt int) {
 	oracleAKind(run, idx, c, faults, err, fb, dest, cnt, "injected")
 }
@@ -525,6 +595,10 @@ func oracleAKind(run *hx.Run, idx int, c opCase, faults []prim, err error, fb *f
 		run.Fail(hx.OracleFailure{Class: "panic", What: err.Error(), Input: in, Replay: replay})
 		return
 	}
+	if fb.openAtReturn > 0 {
+		run.Fail(hx.OracleFailure{Class: "helper-returned-with-open-objects", What: fmt.Sprintf("%s (parallelism %d) returned %v while %d object(s) it had opened were not yet closed: it did not wait for its own jobs", c.kind, c.par, err, fb.openAtReturn), Input: in, Replay: replay})
+	}
+	lateSweep = append(lateSweep, lateEntry{idx: idx, in: in, kind: c.kind, par: c.par, log: fb.late})
 	if len(fb.fired) > 0 && err == nil {
 		run.Fail(hx.OracleFailure{Class: "fault-not-reported", What: fmt.Sprintf("%s returned nil although %v failed", c.kind, fb.fired), Input: in, Replay: replay})
 	}
@@ -1396,8 +1470,14 @@ func main() {
 	tmpRoot, err := os.MkdirTemp("", "verif-c15-")
 	must(err)
 	defer os.RemoveAll(tmpRoot)
+	if run.Only >= rcOnlyBase {
+		partRealClose(run, r.Fork(10), tmpRoot)
+		run.Finish()
+		return
+	}
 	partA(run, r.Fork(1), tmpRoot)
 	partBreadth(run, r.Fork(2))
+	sweepLate(run)
 	partB(run, r.Fork(3), tmpRoot)
 	partFsize(run, r.Fork(4), tmpRoot)
 	partFlush(run, r.Fork(5), tmpRoot)
@@ -1405,6 +1485,7 @@ func main() {
 	partProducer(run, r.Fork(7), tmpRoot)
 	partWalk(run, r.Fork(8), tmpRoot)
 	partReal(run, r.Fork(9), tmpRoot)
+	partRealClose(run, r.Fork(10), tmpRoot)
 	run.Finish()
 }
 
